@@ -658,8 +658,9 @@ func (e *env) closer(watchdog *string) {
 				if n >= 40960 && time.Since(lastT) > 100*time.Millisecond {
 					break
 				}
-				if time.Since(start) > 60*time.Second {
-					*watchdog = fmt.Sprintf("flood never filled the low-priority channel (accepted %d)", n)
+				// watchdog (inconclusive): no progress at all for 30 s, or 4 minutes in total on an overloaded machine
+				if (n < 40960 && time.Since(lastT) > 30*time.Second) || time.Since(start) > 240*time.Second {
+					*watchdog = fmt.Sprintf("flood never filled the low-priority channel (accepted %d after %v)", n, time.Since(start).Round(time.Second))
 					break
 				}
 				time.Sleep(500 * time.Microsecond)
@@ -765,8 +766,8 @@ func runOne(in caseIn) caseOut {
 	// phase 1: let the generated traffic and closes run (watchdog only; what is still stuck is judged after the final close)
 	select {
 	case <-closerDone:
-	case <-time.After(150 * time.Second):
-		watchdog = "closer did not finish within 150 s"
+	case <-time.After(330 * time.Second):
+		watchdog = "closer did not finish within 330 s"
 	}
 	if watchdog == "" {
 		select {
